@@ -170,7 +170,7 @@ package closest
 //@   requires query.Count_A == 0 && query.Count_C == 0 && query.Count_G == 0 && query.Count_T == 0
 //@   loop 1:
 //@     do-start gReached = false
-//@     do-end if (maxdist == -1.0 || (!isnan(distance) && distance <= maxdist)) != gReached { gMissed++ }
+//@     do-end if (maxdist == -1.0 || (!isnan(distance) && !(distance > maxdist))) != gReached { gMissed++ }
 //@     invariant [c06.radius.inclusive] gMissed == 0
 //@     invariant len(sent(cOut)) == 0 && len(neighbours.catchment) <= catchmentSize && neighbours.qname == query.ID && neighbours.qidx == query.Idx && freshslice(neighbours.catchment)
 //@     invariant implies(len(neighbours.catchment) == catchmentSize, forall(a, 0, catchmentSize, forall(b, a + 1, catchmentSize, !cmpLess(neighbours.catchment[b].distance, neighbours.catchment[b].completeness, neighbours.catchment[a].distance, neighbours.catchment[a].completeness))))
